@@ -9,7 +9,10 @@
 //	                 rm:K trunc:K   clear peek:N each:P len empty
 //	Q n|z <op;…>     queue history from NewQueue (n) or a zero Queue (z).
 //	                 Ops: add:V pop front peek:N each:P clear len empty
-//	S <op;…>         stack history.  Ops: push:V addv:V empty clear top peek:N pop each:P len slice
+//	S <op;…>         stack history.  Ops: push:V addv:V empty clear top peek:N pop each:P len slice reach
+//	S<t><c> <op;…>   the same on stack.Stack of another element type t (codes for values) from the
+//	                 constructor c (n New, z zero value); uppercase t: 2^15..2^16+1 elements, spec only
+//	                 (round 5; reach = re-entrant and interleaved iteration; see stacktyped.go)
 //
 // Bulk ops (one op = many calls, observed once at the end; used by the scale streams, where a
 // per-call observation would make the line and the replay quadratic):
@@ -55,7 +58,7 @@ import (
 	"time"
 
 	"github.com/creachadair/mds/mlink"
-	"github.com/creachadair/mds/stack"
+	"verif/harness/internal/elem"
 	"verif/harness/internal/tr"
 )
 
@@ -471,108 +474,8 @@ func execQueue(kind string, ops []string) string {
 	})
 }
 
-func execStack(ops []string) string {
-	s := stack.New[int]()
-	var kept, snap [][]int // slices returned by Slice earlier, and what they held
-	quiet := false
-	return steps(ops, func(op string) string {
-		f := strings.Split(op, ":")
-		res := "?"
-		switch {
-		case f[0] == "push" && len(f) == 2:
-			if v, ok := atoi(f[1]); ok {
-				res = call(func() string { s.Push(v); return "u" })
-			}
-		case f[0] == "addv" && len(f) == 2:
-			if v, ok := atoi(f[1]); ok {
-				res = call(func() string { s.Add(v); return "u" })
-			}
-		case (f[0] == "pushn" || f[0] == "addn") && len(f) == 3:
-			if n, b, ok := bulk(f[1], f[2]); ok {
-				add := f[0] == "addn"
-				res = "u" + many(n, func(i int) {
-					if add {
-						s.Add(b + 1 + i)
-					} else {
-						s.Push(b + 1 + i)
-					}
-				})
-				if strings.HasPrefix(res, "uP") {
-					res = res[1:]
-				}
-			}
-		case f[0] == "popn" && len(f) == 2:
-			if n, ok := atoi(f[1]); ok && n >= 0 && n <= maxBulk {
-				var vs []int
-				p := many(n, func(int) { v, ok := s.Pop(); vs = append(vs, popEnc(v, ok)) })
-				res = "q" + ints(vs) + p
-			}
-		case f[0] == "peeks" && len(f) == 2:
-			res = peeks(s, f[1])
-		case op == "quiet":
-			quiet = true
-			return "u"
-		case op == "obs":
-			res = "o"
-		case op == "empty":
-			res = call(func() string { return "b" + tr.B(s.IsEmpty()) })
-		case op == "clear":
-			res = call(func() string { s.Clear(); return "u" })
-		case op == "top":
-			res = call(func() string { return "v" + strconv.Itoa(s.Top()) })
-		case f[0] == "peek" && len(f) == 2:
-			if n, ok := atoi(f[1]); ok {
-				res = call(func() string { v, ok := s.Peek(n); return "p" + strconv.Itoa(v) + ":" + tr.B(ok) })
-			}
-		case op == "pop":
-			res = call(func() string { v, ok := s.Pop(); return "p" + strconv.Itoa(v) + ":" + tr.B(ok) })
-		case f[0] == "each" && len(f) == 2:
-			if p, ok := pred(f[1]); ok {
-				res = eachP(s, p)
-			}
-		case op == "len":
-			res = call(func() string { return "n" + strconv.Itoa(s.Len()) })
-		case op == "slice":
-			res = call(func() string {
-				sl := s.Slice()
-				r := "l" + ints(sl)
-				if len(sl) == 0 && sl != nil { // "If s is empty, Slice returns nil"
-					r = "lnil"
-				}
-				if len(sl) > 0 {
-					k := append(sl, -55) // into the spare capacity, if there is any
-					kept = append(kept, k)
-					snap = append(snap, append([]int(nil), k...))
-				}
-				for i := range sl { // Slice must be a copy: poison it (kept shares sl's array: re-snapshot)
-					sl[i] = -77
-				}
-				if n := len(kept); len(sl) > 0 {
-					snap[n-1] = append([]int(nil), kept[n-1]...)
-				}
-				return r
-			})
-		}
-		alias := ""
-		for i := range kept {
-			for j := range kept[i] {
-				if kept[i][j] != snap[i][j] {
-					alias = "/ALIAS"
-				}
-			}
-		}
-		if quiet && op != "obs" {
-			return res + alias
-		}
-		return strings.Join([]string{res,
-			call(func() string { return "l" + ints(s.Slice()) }),
-			eachAll(s),
-			call(func() string { return "n" + strconv.Itoa(s.Len()) }),
-			call(func() string { return "b" + tr.B(s.IsEmpty()) }),
-			call(func() string { return "v" + strconv.Itoa(s.Top()) }),
-			call(func() string { v, ok := s.Peek(1); return "p" + strconv.Itoa(v) + ":" + tr.B(ok) })}, "/") + alias
-	})
-}
+// execStack: S lines (stack.New[int]()); the generic body is in stacktyped.go.
+func execStack(ops []string) string { return execStackT(elem.Int, false, ops) }
 
 func exec(in string) string {
 	f := strings.Fields(in)
@@ -587,6 +490,8 @@ func exec(in string) string {
 		return execQueue(f[1], ops)
 	case f[0] == "S" && len(f) == 2:
 		return execStack(ops)
+	case len(f[0]) == 3 && f[0][0] == 'S' && len(f) == 2: // S<t><c>: another element type / constructor (stacktyped.go)
+		return execStackKind(f[0], ops)
 	}
 	return "?"
 }
@@ -1082,7 +987,7 @@ func queueTags(in, out string) (bool, []string) {
 }
 
 func main() {
-	tr.Main("C10 (stack, mlink): L = histories of one mlink.List edited through up to ~7 cursors handed out by At/Last/End/Find (neighbouring cursors on purpose, so that Remove/Truncate/Clear leave stale ones which are then used; panics recovered, hangs caught by a watchdog): exhaustively all 2-op (quick) / 3-op (thorough) continuations over every cursor x {rm,trunc,push,add,set,next} + clear from a 3-element list with a cursor at every position, scripted Truncate-then-Add-at-End and stale-cursor scenarios, and random histories of 6-30 ops; Q = queue histories from NewQueue and from a zero Queue: exhaustively all sequences over {add,pop,clear,front} to length 7 (quick) / 9 (thorough) and random ones that empty the queue often; S = stack histories, exhaustive to length 6/7 over {push,pop,clear,peek} and random.  After every op the full contents (Each), Len, IsEmpty and every cursor's AtEnd/Get (Front/Peek/Top/Slice for Q and S) are recorded.  Scale streams (every tier): each container grown to 2^k-1, 2^k, 2^k+1 elements (stack k<=12, queue k<=10, list k<=10 and one size at 2^11 in the quick tier; stack k<=13, queue and list k<=11 and one list of 2^12 thorough) and a few random sizes, drained by single Pop/Remove calls (lists also by Truncate and through a middle cursor) to 1/2, 1/4, 1/8, 1/16 of that and to one element, regrown (at a varying point and at the end) and drained past empty; after every phase the whole contents (Slice/Each as a digest above 200 values), Len, IsEmpty, Top/Front, Peek at the top, in the middle, at the last element and past it, and the order of the popped values; up to 2^9 (stack) / 2^6 (queue, list) every fraction is crossed by four single, individually observed calls.  Non-trivial: a list history in which a stale cursor was observed or used, a cursor sat at the end, or Truncate was followed by Add at End; a queue history with Add after the queue was emptied; every stack history with a pop.",
+	tr.Main("C10 (stack, mlink): L = histories of one mlink.List edited through up to ~7 cursors handed out by At/Last/End/Find (neighbouring cursors on purpose, so that Remove/Truncate/Clear leave stale ones which are then used; panics recovered, hangs caught by a watchdog): exhaustively all 2-op (quick) / 3-op (thorough) continuations over every cursor x {rm,trunc,push,add,set,next} + clear from a 3-element list with a cursor at every position, scripted Truncate-then-Add-at-End and stale-cursor scenarios, and random histories of 6-30 ops; Q = queue histories from NewQueue and from a zero Queue: exhaustively all sequences over {add,pop,clear,front} to length 7 (quick) / 9 (thorough) and random ones that empty the queue often; S = stack histories, exhaustive to length 6/7 over {push,pop,clear,peek} and random.  After every op the full contents (Each), Len, IsEmpty and every cursor's AtEnd/Get (Front/Peek/Top/Slice for Q and S) are recorded.  Scale streams (every tier): each container grown to 2^k-1, 2^k, 2^k+1 elements (stack k<=12, queue k<=10, list k<=10 and one size at 2^11 in the quick tier; stack k<=13, queue and list k<=11 and one list of 2^12 thorough) and a few random sizes, drained by single Pop/Remove calls (lists also by Truncate and through a middle cursor) to 1/2, 1/4, 1/8, 1/16 of that and to one element, regrown (at a varying point and at the end) and drained past empty; after every phase the whole contents (Slice/Each as a digest above 200 values), Len, IsEmpty, Top/Front, Peek at the top, in the middle, at the last element and past it, and the order of the popped values; up to 2^9 (stack) / 2^6 (queue, list) every fraction is crossed by four single, individually observed calls.  Non-trivial: a list history in which a stale cursor was observed or used, a cursor sat at the end, or Truncate was followed by Add at End; a queue history with Add after the queue was emptied; every stack history with a pop.  Round 5 (stacktyped.go): S<t><c> lines = stack.Stack at int, byte, bool, int16, [3]byte, float32, *int, string and a 40-byte struct (element codes mapped to values in the harness) from New and from the zero value: every history over {push, push of a second code, pop, clear, slice, peek:0} to depth 4 (zero value) / 3 (New) (thorough 6/5), snapshots returned by Slice kept and compared after every later op, extreme offsets, random histories, op reach = Each whose callback calls Len/IsEmpty/Top/Peek/nested Each/Slice of the same stack at every element plus two iter.Pull iterations zipped, sizes 7..257 grown, drained to 1/2..1/16 and regrown (one quiet history of 1025 elements for a third of the types), and spec-only histories of exactly 2^15-1 .. 2^16+1 elements (quick 2, thorough 28).",
 		exec, func(g *tr.G) {
 			stop := func() bool { return hangs.Load() >= 3 }
 			emitL := func(ops []string, tags ...string) {
@@ -1103,17 +1008,18 @@ func main() {
 				nt, t := queueTags(in, out)
 				g.W.Case(in, out, nt, append(t, tags...)...)
 			}
-			emitS := func(ops []string, tags ...string) {
+			emitSK := func(kind string, ops []string, tags ...string) {
 				if stop() {
 					return
 				}
-				in := "S " + strings.Join(ops, ";")
+				in := kind + " " + strings.Join(ops, ";")
 				out := exec(in)
 				if i := strings.Index(in, "slice"); i >= 0 && strings.Contains(in[i:], "push") {
 					tags = append(tags, "slice-kept-across-push")
 				}
 				g.W.Case(in, out, strings.Contains(in, "pop"), tags...)
 			}
+			emitS := func(ops []string, tags ...string) { emitSK("S", ops, tags...) }
 
 			// ---- lists: scripted scenarios
 			emitL([]string{"end", "add:0:1+2", "at:1", "at:0", "rm:2", "trunc:1"}, "F7-witness")
@@ -1261,6 +1167,8 @@ func main() {
 				}
 				return lifoFifoScale(n, deep, ra, g1, g2, sk, full)
 			}, func(ops []string, tag string) { emitS(ops, tag) })
+			// ---- stacks of other element types, from both constructors; re-entrant traversals (stacktyped.go)
+			genStackTyped(g, emitSK)
 			v := 0
 			scaleStream(qk, qk.sizes(g.R, nrand, g.Scale(600, 3000)), func(n int, deep bool, ra, _ int, full bool) []string {
 				return lifoFifoScale(n, deep, ra, "addn", "addn", qk, full)
